@@ -48,8 +48,9 @@ def gen_cases(ctx):
     shapes = ["plus1", "minus1", "one", "scalar", "single_matrix", "empty"]
     for i in range(ctx.share(ctx.scale(108, 5400))):
         rng = ctx.rng(3, i)
-        yield {"kind": "reject", "seed": int(rng.integers(1 << 31)), "fault": "size_mismatch", "where": ["first", "middle", "last"][i % 3],
-               "array": ["fractions", "orientations", "both"][(i // 3) % 3], "shape": shapes[(i // 9) % 6]}
+        j = i * ctx.nshards + ctx.shard   # global index: the 54 combinations are spread over the shards, not repeated in each
+        yield {"kind": "reject", "seed": int(rng.integers(1 << 31)), "fault": "size_mismatch", "where": ["first", "middle", "last"][j % 3],
+               "array": ["fractions", "orientations", "both"][(j // 3) % 3], "shape": shapes[(j // 9) % 6]}
 
 
 def special_floats(rng, shape):
